@@ -615,6 +615,10 @@ func checkCase(c Case) (*Result, error) {
 	if err != nil {
 		return nil, envError{err}
 	}
+	if r.Obs.TimedOut && r.Obs.Quiescent {
+		// blocked for good, not slow (see fplab.Obs): no second run needed
+		return r, ev.Errf("host/hang", "thriftrw did not finish: after %.0f s nothing moved any more (every thread of the host and of its plugins asleep for 5 s, no CPU time used): %s", r.Obs.Wall.Seconds(), r.Obs.Blocked)
+	}
 	if r.Obs.TimedOut {
 		hostTimeout = 240 * time.Second
 		r, err = runOnce(c)
